@@ -58,6 +58,8 @@ enum Event {
     /// a request frame read by the server in `AutoRead` mode
     Req(RawFrame),
     Frames(Vec<RawFrame>),
+    /// ids of the requests an `Echo` command answered
+    Ids(Vec<u64>),
     Done,
     SrvErr(String),
     Res(usize, Result<Value, RepeError>),
@@ -194,10 +196,12 @@ async fn server_task(is_ws: bool, listener: tokio::net::TcpListener, mut cmds: t
             }
             Cmd::Echo(k) => {
                 let mut r = Ok(());
+                let mut ids = Vec::new();
                 for _ in 0..k {
                     r = match conn.read_frame().await {
                         Ok(f) => {
                             let c = caller_of(&f).map(|c| c as i64).unwrap_or(-1);
+                            ids.push(f.h.id);
                             conn.send_frame(response(f.h.id, false, c, c)).await
                         }
                         Err(e) => Err(e),
@@ -207,7 +211,7 @@ async fn server_task(is_ws: bool, listener: tokio::net::TcpListener, mut cmds: t
                     }
                 }
                 let _ = match r {
-                    Ok(()) => ev.send(Event::Done),
+                    Ok(()) => ev.send(Event::Ids(ids)),
                     Err(e) => ev.send(Event::SrvErr(e)),
                 };
             }
@@ -309,6 +313,8 @@ struct Session {
     stash: Vec<(usize, Result<Value, RepeError>)>,
     /// server replies that arrived while waiting for a call result
     srv_stash: std::collections::VecDeque<Event>,
+    /// requests read by the server in `AutoRead` mode that nobody has asked for yet
+    req_stash: Vec<RawFrame>,
     handles: Vec<(usize, tokio::task::JoinHandle<()>)>,
 }
 
@@ -332,7 +338,7 @@ impl H {
             1 => Cl::A(self.rt.block_on(AsyncClient::connect(addr)).map_err(|e| e.to_string())?),
             _ => Cl::W(self.rt.block_on(WebSocketClient::connect(&format!("ws://{}/", addr))).map_err(|e| e.to_string())?),
         };
-        Ok(Session { kind, cl, cmd, ev_tx, ev, stash: Vec::new(), srv_stash: Default::default(), handles: Vec::new() })
+        Ok(Session { kind, cl, cmd, ev_tx, ev, stash: Vec::new(), srv_stash: Default::default(), req_stash: Vec::new(), handles: Vec::new() })
     }
 }
 
@@ -447,6 +453,12 @@ fn response(id: u64, notify: bool, tag: i64, c: i64) -> Vec<u8> {
     let body = serde_json::to_vec(&json!({ "tag": tag, "c": c })).unwrap();
     RawFrame::request(id, notify, 1, b"/t", 2, &body).to_vec()
 }
+/// An error response (ec != 0, UTF-8 message body).
+fn error_response(id: u64, ec: u32) -> Vec<u8> {
+    let mut f = RawFrame::request(id, false, 1, b"/t", 3, b"late failure of some other request");
+    f.h.ec = ec;
+    f.to_vec()
+}
 fn tag_of(v: &Value) -> Option<i64> {
     v.get("tag")?.as_i64()
 }
@@ -529,10 +541,15 @@ fn run_mux_case(h: &H, out: &mut Out, idx: &str, case: &MuxCase) {
         let (id, notify, who) = match &t[..1] {
             "r" => (ids[k], false, Some(k)),
             "n" => (ids[k], true, Some(k)),
-            "u" => (unknown_base + k as u64, false, None),
+            "u" | "e" => (unknown_base + k as u64, false, None),
             _ => (unknown_base + k as u64, true, None),
         };
-        wire.push(response(id, notify, pos as i64, who.map(|x| x as i64).unwrap_or(-1)));
+        if &t[..1] == "e" {
+            // unknown id *and* a non-zero error code (a late error answer to a call that gave up)
+            wire.push(error_response(id, 7));
+        } else {
+            wire.push(response(id, notify, pos as i64, who.map(|x| x as i64).unwrap_or(-1)));
+        }
         meta.push((who, notify));
         out.count(&format!("mux.frame.{}", &t[..1]));
     }
@@ -727,13 +744,32 @@ fn run_batch_case(h: &H, out: &mut Out, idx: &str, case: &BatchCase) {
 
 /// `k` calls one after the other from `t` threads/tasks, each answered the instant the server has read
 /// it: the response races the caller's own bookkeeping after the write.
-fn run_seq_case(h: &H, out: &mut Out, idx: &str, kind: usize, t: usize, k: usize) {
+fn run_seq_case(h: &H, out: &mut Out, idx: &str, kind: usize, t: usize, k: usize, nbig: usize) {
     let kname = KINDS[kind];
-    let op = format!("seq {} {} {} {}", idx, kind, t, k);
+    let op = if nbig > 0 { format!("seqbig {} {} {} {} {}", idx, kind, t, k, nbig) } else { format!("seq {} {} {} {}", idx, kind, t, k) };
     out.begin(&op);
     let ops = [op.clone()];
     let Ok(mut s) = h.open(kind) else { return };
     s.send(Cmd::Echo(t * k));
+    // meanwhile: requests above the WebSocket client's assumed peer frame limit (refused locally, nothing
+    // sent); the body is built beforehand so that the refusals fall into the time the workers are busy
+    let (btx, brx) = smpsc::channel::<String>();
+    if nbig > 0 {
+        if let Cl::W(cl) = s.cl.clone() {
+            let big = json!({"c": 999, "pad": "x".repeat(17 << 20)});
+            h.rt.spawn(async move {
+                for _ in 0..nbig {
+                    let r = cl.call_json("/t", &big).await;
+                    let _ = btx.send(match r {
+                        Err(RepeError::MessageTooLarge { .. }) => "refused".into(),
+                        Err(e) => format!("err:{}", io_kind(&e)),
+                        Ok(_) => "sent".into(),
+                    });
+                    tokio::task::yield_now().await;
+                }
+            });
+        }
+    }
     let (dtx, drx) = smpsc::channel::<(usize, usize, String)>();
     for w in 0..t {
         let dtx = dtx.clone();
@@ -801,8 +837,304 @@ fn run_seq_case(h: &H, out: &mut Out, idx: &str, kind: usize, t: usize, k: usize
             }
         }
     }
+    if done == t && okc == t * k {
+        // ids the server saw: pairwise distinct
+        if let Ok(Event::Ids(mut ids)) = s.srv() {
+            ids.sort();
+            if let Some(w) = ids.windows(2).find(|w| w[0] == w[1]) {
+                out.oracle_fail(&format!("mux.{}.ids_not_distinct", kname), &format!("request id {} was issued twice on one connection", w[0]), &ops);
+            }
+        }
+    }
+    for _ in 0..nbig {
+        match brx.recv_timeout(call_watchdog()) {
+            Ok(x) => out.count(&format!("mux.{}.oversize.{}", kname, x.split(':').next().unwrap())),
+            Err(_) => break,
+        }
+    }
     out.count(&format!("mux.{}.seq", kname));
     out.case(&op, &format!("{} ok {}", idx, okc), true);
+    s.send(Cmd::Close);
+}
+
+
+// ---------------------------------------------------------------------------------------------
+// `forward_message` (AsyncClient only: the one entry point with caller-chosen ids)
+// ---------------------------------------------------------------------------------------------
+impl Session {
+    /// Start `forward_message` of a request with the caller-chosen `id`, tagged `c`.
+    fn fwd(&mut self, h: &H, c: usize, id: u64, timeout: Option<Duration>) {
+        let Cl::A(cl) = self.cl.clone() else { return };
+        let tx = self.ev_tx.clone();
+        let jh = h.rt.spawn(CALLER_TASK.scope(c, async move {
+            let msg = match Message::builder().id(id).query_str("/t").body_json(&req_body(c)) {
+                Ok(b) => b.build(),
+                Err(e) => {
+                    let _ = tx.send(Event::Res(c, Err(e)));
+                    return;
+                }
+            };
+            let r = match timeout {
+                Some(t) => cl.forward_message_with_timeout(&msg, t).await,
+                None => cl.forward_message(&msg).await,
+            };
+            let r = match r {
+                Ok(Some(m)) if m.header.id == id => serde_json::from_slice::<Value>(&m.body).map_err(RepeError::from),
+                Ok(Some(m)) => Err(RepeError::ResponseIdMismatch { expected: id, got: m.header.id }),
+                Ok(None) => Err(RepeError::Io(std::io::Error::other("no response"))),
+                Err(e) => Err(e),
+            };
+            let _ = tx.send(Event::Res(c, r));
+        }));
+        self.handles.push((c, jh));
+    }
+    /// Wait until the server (in `AutoRead` mode) has read a request with header id `id`, or call `c`
+    /// returned. `Ok(())` = the request arrived; `Err(Some(result))` = the call returned first.
+    fn req_or_res(&mut self, c: usize, id: u64) -> Result<(), Option<Result<Value, RepeError>>> {
+        if let Some(p) = self.req_stash.iter().position(|f| f.h.id == id) {
+            self.req_stash.remove(p);
+            return Ok(());
+        }
+        if let Some(p) = self.stash.iter().position(|x| x.0 == c) {
+            return Err(Some(self.stash.remove(p).1));
+        }
+        let deadline = Instant::now() + call_watchdog();
+        loop {
+            match self.ev.recv_timeout(deadline.saturating_duration_since(Instant::now())) {
+                Ok(Event::Req(f)) if f.h.id == id => return Ok(()),
+                Ok(Event::Req(f)) => self.req_stash.push(f),
+                Ok(Event::Res(x, r)) if x == c => return Err(Some(r)),
+                Ok(Event::Res(x, r)) => self.stash.push((x, r)),
+                Ok(e) => self.srv_stash.push_back(e),
+                Err(_) => return Err(None),
+            }
+        }
+    }
+    /// Result of call `c` (other results are kept).
+    fn res_of(&mut self, c: usize, wd: Duration) -> Option<Result<Value, RepeError>> {
+        if let Some(p) = self.stash.iter().position(|x| x.0 == c) {
+            return Some(self.stash.remove(p).1);
+        }
+        let deadline = Instant::now() + wd;
+        loop {
+            match self.ev.recv_timeout(deadline.saturating_duration_since(Instant::now())) {
+                Ok(Event::Res(x, r)) if x == c => return Some(r),
+                Ok(Event::Res(x, r)) => self.stash.push((x, r)),
+                Ok(Event::Req(f)) => self.req_stash.push(f),
+                Ok(e) => self.srv_stash.push_back(e),
+                Err(_) => return None,
+            }
+        }
+    }
+}
+
+fn own(r: &Option<Result<Value, RepeError>>, tag: i64) -> String {
+    match r {
+        None => "HANG".into(),
+        Some(Ok(v)) if tag_of(v) == Some(tag) => "own".into(),
+        Some(Ok(_)) => "other".into(),
+        Some(Err(e)) => format!("Err({})", io_kind(e)),
+    }
+}
+
+/// C04 side: caller-chosen ids (boundary values incl. 0), a duplicate of an in-flight id, immediate
+/// re-use of an id whose response has just been matched.
+fn run_fwd_case(h: &H, out: &mut Out, idx: &str, mode: &str) {
+    let op = format!("fwd {} 1 {}", idx, mode);
+    out.begin(&op);
+    let ops = [op.clone()];
+    let Ok(mut s) = h.open(1) else { return };
+    s.send(Cmd::AutoRead);
+    let _ = s.srv_done();
+    let mut verdict = "ok".to_string();
+    let mut fail = |out: &mut Out, sig: &str, detail: String| {
+        out.oracle_fail(&format!("mux.async.{}", sig), &detail, &ops);
+        if detail.contains("HANG") { saw_hang(); }
+    };
+    match mode {
+        "ids" => {
+            for (k, id) in [0u64, 1, 7, 1 << 32, u64::MAX - 1, u64::MAX].into_iter().enumerate() {
+                s.fwd(h, k, id, None);
+                match s.req_or_res(k, id) {
+                    Ok(()) => {
+                        s.send(Cmd::Send(vec![response(id, false, k as i64, k as i64)]));
+                        let r = s.res_of(k, call_watchdog());
+                        let o = own(&r, k as i64);
+                        if o != "own" {
+                            fail(out, "forward_lost", format!("forward_message with id {} returned {} although the peer answered it", id, o));
+                            verdict = "bad".into();
+                        }
+                    }
+                    Err(r) => {
+                        fail(out, "forward_lost", format!("forward_message with id {}: request not seen by the peer, call ended {}", id, own(&r, k as i64)));
+                        verdict = "bad".into();
+                    }
+                }
+                // an ordinary call in between is still served
+                s.call(h, 100 + k, req_body(100 + k), None);
+                let mut got = None;
+                let deadline = Instant::now() + call_watchdog();
+                while Instant::now() < deadline && got.is_none() {
+                    match s.ev.recv_timeout(Duration::from_millis(50)) {
+                        Ok(Event::Req(f)) if caller_of(&f) == Some(100 + k) => s.send(Cmd::Send(vec![response(f.h.id, false, (100 + k) as i64, 0)])),
+                        Ok(Event::Res(x, r)) if x == 100 + k => got = Some(r),
+                        _ => {}
+                    }
+                }
+                if own(&got, (100 + k) as i64) != "own" {
+                    fail(out, "call_after_forward", format!("call after forwarding id {} returned {}", id, own(&got, (100 + k) as i64)));
+                    verdict = "bad".into();
+                }
+            }
+        }
+        "dup" => {
+            s.fwd(h, 0, 7, None);
+            if s.req_or_res(0, 7).is_err() {
+                fail(out, "forward_lost", "first forward of id 7 did not reach the peer".into());
+            }
+            // same id again while the first is in flight: whatever the client answers, the first must survive
+            s.fwd(h, 1, 7, Some(Duration::from_millis(300)));
+            let second = s.res_of(1, call_watchdog());
+            out.count(&format!("mux.async.fwd.dup.second.{}", own(&second, 1).split('(').next().unwrap()));
+            s.send(Cmd::Send(vec![response(7, false, 0, 0)]));
+            let first = s.res_of(0, call_watchdog());
+            if own(&first, 0) != "own" {
+                fail(out, "duplicate_id_kills_inflight_call", format!("a second forward with the in-flight id 7 was issued (it ended {}); the first call then returned {} instead of the peer's response", own(&second, 1), own(&first, 0)));
+                verdict = "bad".into();
+            }
+        }
+        _ => {
+            // X is answered; Y (same id) registers the instant X's entry has left the map
+            let Cl::A(cl) = s.cl.clone() else { return };
+            for it in 0..40usize {
+                s.fwd(h, 0, 7, None);
+                if s.req_or_res(0, 7).is_err() {
+                    fail(out, "forward_lost", format!("iteration {}: forward of id 7 did not reach the peer", it));
+                    verdict = "bad".into();
+                    break;
+                }
+                let tx = s.ev_tx.clone();
+                let cl2 = cl.clone();
+                h.rt.spawn(async move {
+                    let msg = Message::builder().id(7).query_str("/t").body_json(&req_body(1)).unwrap().build();
+                    let r = loop {
+                        match cl2.forward_message(&msg).await {
+                            Err(RepeError::Io(e)) if e.kind() == std::io::ErrorKind::AlreadyExists => tokio::task::yield_now().await,
+                            other => break other,
+                        }
+                    };
+                    let r = match r {
+                        Ok(Some(m)) => serde_json::from_slice::<Value>(&m.body).map_err(RepeError::from),
+                        Ok(None) => Err(RepeError::Io(std::io::Error::other("no response"))),
+                        Err(e) => Err(e),
+                    };
+                    let _ = tx.send(Event::Res(1, r));
+                });
+                std::thread::sleep(Duration::from_millis(2));
+                s.send(Cmd::Send(vec![response(7, false, 0, 0)]));
+                let x = s.res_of(0, call_watchdog());
+                if own(&x, 0) != "own" {
+                    fail(out, "forward_lost", format!("iteration {}: forward of id 7 returned {}", it, own(&x, 0)));
+                    verdict = "bad".into();
+                    break;
+                }
+                // Y's request (same id, body of caller 1)
+                let deadline = Instant::now() + call_watchdog();
+                let mut seen = false;
+                while Instant::now() < deadline && !seen {
+                    if let Some(p) = s.req_stash.iter().position(|f| f.h.id == 7 && caller_of(f) == Some(1)) {
+                        s.req_stash.remove(p);
+                        seen = true;
+                        break;
+                    }
+                    match s.ev.recv_timeout(Duration::from_millis(50)) {
+                        Ok(Event::Req(f)) => s.req_stash.push(f),
+                        Ok(Event::Res(x, r)) => s.stash.push((x, r)),
+                        _ => {}
+                    }
+                }
+                s.send(Cmd::Send(vec![response(7, false, 1, 1)]));
+                let y = s.res_of(1, call_watchdog());
+                if !seen || own(&y, 1) != "own" {
+                    fail(out, "reused_id_entry_evicted", format!("iteration {}: id 7 was forwarded again right after its previous response was matched; the new call returned {} although the peer answered it (request seen: {})", it, own(&y, 1), seen));
+                    verdict = "bad".into();
+                    break;
+                }
+            }
+        }
+    }
+    out.count(&format!("mux.async.fwd.{}", mode));
+    out.case(&op, &format!("{} {}", idx, verdict), true);
+    s.send(Cmd::Close);
+}
+
+/// C06 side: a forward that times out, one that is cancelled while waiting; neither may leave its
+/// entry behind (the same id must be forwardable again), their late responses are inert.
+fn run_fwd_residue_case(h: &H, out: &mut Out, idx: &str) {
+    let op = format!("fwdres {} 1", idx);
+    out.begin(&op);
+    let ops = [op.clone()];
+    let Ok(mut s) = h.open(1) else { return };
+    s.send(Cmd::AutoRead);
+    let _ = s.srv_done();
+    let mut verdict = "ok".to_string();
+    let mut fail = |out: &mut Out, sig: &str, detail: String| {
+        out.oracle_fail(&format!("deadconn.async.{}", sig), &detail, &ops);
+        if detail.contains("HANG") { saw_hang(); }
+    };
+    // 1. times out
+    s.fwd(h, 0, 7, Some(Duration::from_millis(100)));
+    let _ = s.req_or_res(0, 7);
+    let first = s.res_of(0, call_watchdog());
+    if !matches!(&first, Some(Err(e)) if cls(e) == "Timeout") {
+        fail(out, "forward_timeout_outcome", format!("forward with a 100 ms timeout and no reply returned {}", own(&first, 0)));
+        verdict = "bad".into();
+    }
+    // 2. the same id again: must be accepted (written); it is then cancelled while waiting
+    s.fwd(h, 1, 7, None);
+    match s.req_or_res(1, 7) {
+        Ok(()) => {}
+        Err(r) => {
+            fail(out, "forward_timeout_residue", format!("after a timed-out forward of id 7 the same id was refused: {}", own(&r, 1)));
+            verdict = "bad".into();
+        }
+    }
+    let _ = s.abort(h, 1);
+    // 3. late responses for both abandoned copies: inert
+    s.send(Cmd::Send(vec![response(7, false, 0, 0), response(7, false, 1, 1)]));
+    // 4. an ordinary call is served
+    s.call(h, 2, req_body(2), None);
+    let mut got = None;
+    let deadline = Instant::now() + call_watchdog();
+    while Instant::now() < deadline && got.is_none() {
+        match s.ev.recv_timeout(Duration::from_millis(50)) {
+            Ok(Event::Req(f)) if caller_of(&f) == Some(2) => s.send(Cmd::Send(vec![response(f.h.id, false, 2, 2)])),
+            Ok(Event::Res(2, r)) => got = Some(r),
+            _ => {}
+        }
+    }
+    if own(&got, 2) != "own" {
+        fail(out, "next_call_after_forward_abandoned", format!("a call after the abandoned forwards returned {}", own(&got, 2)));
+        verdict = "bad".into();
+    }
+    // 5. the same id a third time: accepted and answered
+    s.fwd(h, 3, 7, None);
+    match s.req_or_res(3, 7) {
+        Ok(()) => {
+            s.send(Cmd::Send(vec![response(7, false, 3, 3)]));
+            let r = s.res_of(3, call_watchdog());
+            if own(&r, 3) != "own" {
+                fail(out, "forward_after_cancel", format!("forward of id 7 after a cancelled one returned {}", own(&r, 3)));
+                verdict = "bad".into();
+            }
+        }
+        Err(r) => {
+            fail(out, "forward_cancel_residue", format!("after a cancelled forward of id 7 the same id was refused: {}", own(&r, 3)));
+            verdict = "bad".into();
+        }
+    }
+    out.count("deadconn.async.fwdres");
+    out.case(&op, &format!("{} {}", idx, verdict), true);
     s.send(Cmd::Close);
 }
 
@@ -838,7 +1170,8 @@ fn random_script(r: &mut Rng, n: usize) -> Vec<String> {
     };
     for _ in 0..extras {
         let pos = r.below(script.len() as u64 + 1) as usize;
-        let t = match r.below(8) {
+        let t = match r.below(9) {
+            8 => format!("e{}", r.below(50)),
             0 | 1 => format!("u{}", r.below(50)),
             2 => format!("x{}", r.below(50)),
             3 | 4 => format!("r{}", r.below(n.max(1) as u64)), // duplicate (or early second copy)
@@ -862,7 +1195,8 @@ fn gen_mux(args: &Args, r: &mut Rng) -> (Vec<MuxCase>, Vec<BatchCase>) {
                 // every permutation is also run with one adversarial frame at a position derived from the PRNG
                 if n >= 2 && r.chance(1, 2) && n <= 4 {
                     let pos = r.below(script.len() as u64 + 1) as usize;
-                    let t = match r.below(4) {
+                    let t = match r.below(5) {
+                        4 => format!("e{}", r.below(9)),
                         0 => format!("u{}", r.below(9)),
                         1 => format!("r{}", r.below(n as u64)),
                         2 => format!("n{}", r.below(n as u64)),
@@ -875,13 +1209,23 @@ fn gen_mux(args: &Args, r: &mut Rng) -> (Vec<MuxCase>, Vec<BatchCase>) {
         }
         // every single insertion position of each adversarial kind for N = 2 (all orders)
         for p in permutations(2) {
-            for t in ["u0", "x0", "n0", "n1", "r0", "r1"] {
+            for t in ["u0", "e0", "x0", "n0", "n1", "r0", "r1"] {
                 for pos in 0..=2 {
                     let mut script: Vec<String> = p.iter().map(|c| format!("r{c}")).collect();
                     script.insert(pos, t.to_string());
                     cases.push(MuxCase { kind, n: 2, script });
                 }
             }
+        }
+        // bursts: all N responses in one write (they sit together in the reader's buffer), sizes around 32/64
+        for n in [31usize, 32, 33, 34, 48, 63, 64] {
+            let mut script: Vec<String> = (0..n).map(|c| format!("r{c}")).collect();
+            if n % 2 == 0 {
+                script.push("u0".into()); // odd script length = coalesced write (TCP clients)
+            }
+            cases.push(MuxCase { kind, n, script: script.clone() });
+            script.reverse();
+            cases.push(MuxCase { kind, n, script });
         }
         let nrand = if args.thorough() { 1000 } else { 30 };
         for _ in 0..nrand {
@@ -2202,7 +2546,9 @@ fn main() {
                     let script = if w[5] == "-" { vec![] } else { w[5].split(',').map(|s| s.to_string()).collect() };
                     run_mux_case(&h, &mut out, &idx, &MuxCase { kind: w[2].parse().unwrap(), n: w[3].parse().unwrap(), script });
                 }
-                Some("seq") if w.len() >= 5 => run_seq_case(&h, &mut out, &idx, w[2].parse().unwrap(), w[3].parse().unwrap(), w[4].parse().unwrap()),
+                Some("seq") if w.len() >= 5 => run_seq_case(&h, &mut out, &idx, w[2].parse().unwrap(), w[3].parse().unwrap(), w[4].parse().unwrap(), 0),
+                Some("seqbig") if w.len() >= 6 => run_seq_case(&h, &mut out, &idx, w[2].parse().unwrap(), w[3].parse().unwrap(), w[4].parse().unwrap(), w[5].parse().unwrap()),
+                Some("fwd") if w.len() >= 4 => run_fwd_case(&h, &mut out, &idx, w[3]),
                 Some("batch") if w.len() >= 6 => {
                     run_batch_case(&h, &mut out, &idx, &BatchCase { kind: w[2].parse().unwrap(), n: w[3].parse().unwrap(), w: w[4].parse().unwrap(), order: if w[5] == "rev" { vec![usize::MAX] } else { w[5].split(',').filter_map(|x| x.parse().ok()).collect() } });
                 }
@@ -2221,6 +2567,7 @@ fn main() {
                         sched::run_sched_case(&h, &mut out, &idx, w[2].parse().unwrap(), w[3].parse().unwrap(), &actions);
                     }
                 }
+                Some("fwdres") => run_fwd_residue_case(&h, &mut out, &idx),
                 Some("abandon") if w.len() >= 4 => run_abandon_case(&h, &mut out, &idx, w[2].parse().unwrap(), w[3].parse().unwrap()),
                 Some("wtmo") if w.len() >= 5 => run_wtmo_case(&h, &mut out, &idx, w[3].parse().unwrap(), w[4].parse().unwrap()),
                 Some("stall") if w.len() >= 4 => run_stall_case(&h, &mut out, &idx, w[2].parse().unwrap(), w[3]),
@@ -2264,9 +2611,18 @@ fn main() {
         let mut q = 0;
         for kind in 0..3 {
             for (t, k) in if args.thorough() { vec![(1, 2000), (4, 1000), (16, 300)] } else { vec![(1, 300), (4, 150)] } {
-                run_seq_case(&h, &mut out, &format!("q{q}"), kind, t, k);
+                run_seq_case(&h, &mut out, &format!("q{q}"), kind, t, k, 0);
                 q += 1;
             }
+        }
+        // WebSocket client: oversized (locally refused) requests racing id allocation of other callers
+        for (t, k, nbig) in if args.thorough() { vec![(8, 1500, 24), (4, 2000, 24)] } else { vec![(8, 500, 8)] } {
+            run_seq_case(&h, &mut out, &format!("q{q}"), 2, t, k, nbig);
+            q += 1;
+        }
+        for mode in ["ids", "dup", "reuse"] {
+            run_fwd_case(&h, &mut out, &format!("f{q}"), mode);
+            q += 1;
         }
     } else {
         out.rule = "per client: each fault kind (FIN, RST via SO_LINGER 0, close with unread requests, each malformed header / WebSocket message kind, response cut at a header/body byte-offset class, WebSocket close) with 0..16 calls in flight, before or after the requests were read, optionally after answering some calls, with and without per-call timeouts; then one more call and the notify subscriber; timeouts racing the response (late / early / timed race); cancellation before write (writer stalled by a 12 MiB request) and during wait; a malformed frame delivered while another caller is stalled in write (peer not reading); an async call aborted while its large write is parked, then another call; a blocking write timing out mid-frame with calls in flight against a silent peer. Non-trivial = at least one call in flight / every timeout and cancel scenario".into();
@@ -2296,6 +2652,7 @@ fn main() {
             run_cancel_case(&h, &mut out, &format!("c{c}"), kind, "prewrite");
             c += 1;
         }
+        run_fwd_residue_case(&h, &mut out, "fr0");
         // a call abandoned while its large write is parked; a write timing out mid-frame with calls in flight
         let reps = if args.thorough() { 6 } else { 2 };
         for j in 0..reps {
